@@ -28,8 +28,11 @@ type rollSpec struct {
 
 type rollHist struct {
 	x        *rollWorld
+	prop     string
 	method   string
 	genSel   bool
+	paths    bool // revisionHistory.fieldPaths = [spec.template]: replicas and common are outside the revisions
+	desc     bool // the hook lists the highest ordinal first
 	spec     rollSpec
 	hist     []string
 	findings []mc.Finding
@@ -39,7 +42,11 @@ type rollHist struct {
 }
 
 func (h *rollHist) bad(key, format string, a ...interface{}) {
-	h.findings = append(h.findings, mc.Finding{Key: "C08:history:" + key, Msg: fmt.Sprintf("{%s genSel=%v} spec %+v after %v: ", h.method, h.genSel, h.spec, h.hist) + fmt.Sprintf(format, a...)})
+	pre := "C08:history:"
+	if h.prop != "C08" {
+		pre = h.prop + ":rollout-history:"
+	}
+	h.findings = append(h.findings, mc.Finding{Key: pre + key, Msg: fmt.Sprintf("{%s genSel=%v templatePathOnly=%v highestFirst=%v} spec %+v after %v: ", h.method, h.genSel, h.paths, h.desc, h.spec, h.hist) + fmt.Sprintf(format, a...)})
 }
 
 func rollEssence(x *rollWorld) string {
@@ -127,7 +134,7 @@ func (h *rollHist) reference(s rollSpec) string {
 	if r, ok := h.refs[k]; ok {
 		return r
 	}
-	x := newRollWorld(s.Replicas, false, "widgets", h.method, false, h.genSel)
+	x := h.newWorld(s.Replicas)
 	h.writeSpec(x, s)
 	x.DeliverAll()
 	if rollSettle(x, 4*s.Replicas+10, h.bad) < 0 {
@@ -136,6 +143,15 @@ func (h *rollHist) reference(s rollSpec) string {
 	r := rollEssence(x)
 	h.refs[k] = r
 	return r
+}
+
+func (h *rollHist) newWorld(n int) *rollWorld {
+	rollHookDesc = h.desc
+	if h.paths {
+		rollFieldPaths = []string{"spec.template"}
+	}
+	defer func() { rollHookDesc, rollFieldPaths = false, nil }()
+	return newRollWorld(n, false, "widgets", h.method, false, h.genSel)
 }
 
 type rollSnap struct {
@@ -253,16 +269,32 @@ func (h *rollHist) TakeFindings() []mc.Finding {
 	return f
 }
 
-func TestVerifC08Hist(t *testing.T) {
-	r := mc.NewReport("C08", "histories")
+func TestVerifC08Hist(t *testing.T) { rollHistExplore("C08", "histories") }
+
+// C01 over the same histories (convergence to the hook's desired children from every reachable rollout state),
+// in the configurations C08 does not run: replicas outside the revisioned fields.
+func TestVerifC01RollHist(t *testing.T) { rollHistExplore("C01", "rollout-histories") }
+
+func rollHistExplore(prop, unit string) {
+	r := mc.NewReport(prop, unit)
 	defer r.Write()
 	type cfg struct {
 		method string
 		genSel bool
+		paths  bool
+		desc   bool
 	}
-	cfgs := []cfg{{"RollingInPlace", false}, {"RollingRecreate", true}}
-	if mc.Thorough() {
-		cfgs = append(cfgs, cfg{"RollingInPlace", true}, cfg{"RollingRecreate", false})
+	var cfgs []cfg
+	if prop == "C08" {
+		cfgs = []cfg{{"RollingInPlace", false, false, false}, {"RollingRecreate", true, false, false}}
+		if mc.Thorough() {
+			cfgs = append(cfgs, cfg{"RollingInPlace", true, false, false}, cfg{"RollingRecreate", false, false, false}, cfg{"RollingRecreate", false, false, true})
+		}
+	} else {
+		cfgs = []cfg{{"RollingRecreate", false, true, true}, {"RollingInPlace", true, true, true}}
+		if mc.Thorough() {
+			cfgs = append(cfgs, cfg{"RollingRecreate", true, true, false}, cfg{"RollingInPlace", false, true, false})
+		}
 	}
 	depth, maxCh := 6, 2
 	if mc.Thorough() {
@@ -271,8 +303,8 @@ func TestVerifC08Hist(t *testing.T) {
 	shardI, shardN := mc.Shard()
 	for ci, c := range cfgs {
 		start := rollSpec{Ver: "v1", Replicas: 2, Common: "c1"}
-		h := &rollHist{method: c.method, genSel: c.genSel, spec: start, refs: map[string]string{}, maxCh: maxCh}
-		h.x = newRollWorld(2, false, "widgets", c.method, false, c.genSel)
+		h := &rollHist{prop: prop, method: c.method, genSel: c.genSel, paths: c.paths, desc: c.desc, spec: start, refs: map[string]string{}, maxCh: maxCh}
+		h.x = h.newWorld(2)
 		if rollSettle(h.x, 12, h.bad) < 0 || len(h.findings) > 0 {
 			h.bad("setup", "initial bring-up does not settle")
 			for _, f := range h.TakeFindings() {
@@ -294,7 +326,7 @@ func TestVerifC08Hist(t *testing.T) {
 				r.Violate(f.Key, f.Msg, kit.M{"cfg": fmt.Sprintf("%+v", c), "events": []string{fe}})
 			}
 			if len(fs) == 0 {
-				sub := mc.NewReport("C08", "tmp")
+				sub := mc.NewReport(prop, "tmp")
 				mc.BFSSys(sub, h, mc.BFSOpts{MaxDepth: depth - 1}, func(hist []string, ev string, fs []mc.Finding) {
 					r.Outcome(strings.SplitN(ev, "=", 2)[0])
 					for _, f := range fs {
